@@ -107,11 +107,13 @@ Definition time_tables_ok (tt : list (Z * ttab_entry)) (pt : list (string * opti
 Definition env_ct (ft : list (Z * ftab_entry)) (pf : list (string * option Z)) : env :=
   time_env (env_of_tables ft pf [] []).
 
-Definition mismatches_ct (ft : list (Z * ftab_entry)) (pf : list (string * option Z))
+Definition mismatches_ct5 (fix5 : bool) (ft : list (Z * ftab_entry)) (pf : list (string * option Z))
            (tt : list (Z * ttab_entry)) (pt : list (string * option Z))
            (o : nat) (cs : list (nat * case)) : list (nat * list nat) :=
   (if time_tables_ok tt pt then [] else [(match cs with (i, _) :: _ => i | [] => o end, [9%nat])]) ++
-  mismatches_sparse (env_ct ft pf) cs.
+  mismatches_sparse_gen fix5 (env_ct ft pf) cs.
+
+Definition mismatches_ct := mismatches_ct5 false.
 
 (** the entries of the tables the model disagrees with (for diagnosis) *)
 Definition time_table_diffs (tt : list (Z * ttab_entry)) (pt : list (string * option Z))
